@@ -98,6 +98,15 @@ claim('C15', 'reader/writer field agreement + must-check gates (incl. disjunctiv
       'the expiry helper fails on zero NextUpdate and maps time.Now().After(nextUpdate) to the miss sentinel; a missing file is a miss; every file-system path of Get and Set is Join(root, hex(sha256(url))) of the full unsliced hash of exactly the URL string; '
       'Set refuses nil bundle/base and propagates marshal and write errors, writing the marshalled entry. Byte fidelity through std parsers and SHA-256 collision freedom are trusted.', 'DESIGN.md 2/C15')
 
+claim('C16', 'taint analysis with certified sanitizers (regexp/syntax certification, leaf decomposition through concatenation/Join/module helpers, value-identity of the validated leaf) + who-may-call + forward-use inventory',
+      'Static, all-paths: every path handed to the plugin file system by the manager (Get, Install, Uninstall) has as non-constant leaves exactly the SSA values that a dominating, fail-closed validation accepted, where a validator counts only if its success implies the '
+      'certified single-component file-name predicate (no separator, NUL, empty, ".", ".."); deletion only happens on such a path; the verifier passes the signature-supplied name only to Manager.Get; listing reports an entry only for a non-root, directory, non-symlink '
+      'DirEntry type. Holds for every name string at once; also analysed under GOOS=windows in the thorough tier. What the OS does with a validated single component is trusted.', 'DESIGN.md 2/C16')
+claim('C17', 'typestate of the exec.Cmd object (dominating unconditional stores) + must-check gates + guarded error-mapping table + who-may-call',
+      'Static: decides the structural preconditions of containment — the only process start is exec.CommandContext with the caller\'s context; before Run, unconditionally, Stdout and Stderr are the module\'s limited writer with a positive constant cap, WaitDelay is a positive constant '
+      'and Stdin is the request; the limited writer forwards only with N > 0, at most N bytes, and decrements N; the runner succeeds only on process success and a whole-buffer json.Unmarshal of stdout; the three failure mappings and all metadata gates (incl. name == plugin name) are fail-closed. '
+      'NOT decided: real timing and memory, which follow from os/exec semantics (trusted).', 'DESIGN.md 2/C17')
+
 NA_REASON = {}
 
 def main():
